@@ -154,6 +154,11 @@ class Collapse:
             ro = self.org(f.value)
             m = f.attr
             if ro == 'template' or (isinstance(f.value, ast.Name) and f.value.id == 'file'):
+                if m in MUTATORS:
+                    # a known mutator applied to a template object: a WRITE site with origin template (the census
+                    # obligation collapse_never_writes_template reports it)
+                    self.sites.append((e.lineno, 'WRITE', 'template', fname + '(...)'))
+                    return 'scalar'
                 if m not in READ_ONLY_METHODS:
                     raise TranslateError(f'collapse_one: method `{m}` called on a template object is not known to be read-only (line {e.lineno})')
                 if m == 'copy':
